@@ -10,6 +10,7 @@ func init() {
 }
 
 var e5Explanation = map[string]string{}
+var e5NotDecided = map[string]string{}
 
 func checkFormulaProperty(p *Program, c *Check, id string) {
 	c.Explanation = "E5 value-graph matching: for every function anchored in this property the SSA def-use graph is rebuilt as terms (merged return values, guarded effects in order, " +
@@ -17,6 +18,7 @@ func checkFormulaProperty(p *Program, c *Check, id string) {
 		"(/verif/spec, loaded as an in-memory overlay; never compiled into or run with the repository). Numeric terms are normalised as polynomials over the reals, guards by case analysis over their atomic comparisons, " +
 		"so re-association, renamed locals, reordered commutative operands, if/else vs early return and equivalent comparison forms are accepted while a changed operator, operand, field, constant, guard direction or strictness, " +
 		"call argument role, loop bound or effect order is a mismatch. " + e5Explanation[id]
+	c.NotDecided = e5NotDecided[id] + "; numeric accuracy (terms are compared over the reals); the emergent behaviour of value-dependent loops beyond their per-iteration transfer functions; anything the reference implementations in /verif/spec state wrongly"
 	c.Assumptions = append(c.Assumptions,
 		"real arithmetic: floating-point rounding, overflow and NaN propagation are not modelled",
 		"the reference implementations in /verif/spec state the property's formulas correctly (reviewed by hand against properties.jsonl)",
